@@ -1,5 +1,6 @@
 import HC.Prelude
 import HC.Extracted.Guards
+import HC.Extracted.WsgiSites
 /-!
 # Model of `hypercorn/app_wrappers.py`: `WSGIWrapper.__call__`, `handle_http`, `run_app`, `_build_environ`
 
@@ -17,6 +18,9 @@ Representation choices
   (`Option.getD` occurs only where the code itself supplies a default: `scope.get("root_path", "")`,
   `scope.get("scheme", "http")`, `scope.get("server") or ("localhost", 80)`.)
 * the body-limit comparison is the *extracted* comparator `Extracted.Guards.wsgiBodyCmp`.
+* what `run_app` iterates and closes is the *extracted* `Extracted.WsgiSites.wsgiBodyBinding`: the object the application
+  returned (`for output in response_body` inside the `try`, `close` looked up on that object), or `iter()` of it taken
+  before the `try` (then `close` is looked up on the iterator and an exception from `__iter__` escapes the `finally`).
 * `run_app` exists in two shapes, selected by `Variant` (the harness reads the shape off the current source):
   `checkAfterCall` is the pinned tree (start_response must have been called when the callable returns, the
   `try/finally: close()` covers only the iteration — observation F19); `checkAtFirstChunk` is the repaired shape
@@ -244,13 +248,23 @@ deriving Repr, DecidableEq
 
 /-- an application, as far as the wrapper can tell: the `start_response` calls it makes before its callable
     returns, whether the callable then raises, what iterating the returned object does, and whether that object
-    has a `close` attribute.  An error raised by `start_response` itself propagates through the application. -/
+    has a `close` attribute.  An error raised by `start_response` itself propagates through the application.
+    The returned object need not be its own iterator (PEP 3333 only asks for an iterable): `selfIter = false` is a
+    container whose `__iter__` hands out a separate iterator (a list subclass, a class with a generator `__iter__` and a
+    `close` that releases a resource); that iterator may have a `close` of its own (`iterHasClose`, a generator does), and
+    `__iter__` itself may raise (`iterRaises`, then `iter` is never run). -/
 structure App where
   call : List StartArgs
   callRaises : Bool
   iter : List IterAct
   hasClose : Bool
+  selfIter : Bool := true
+  iterRaises : Bool := false
+  iterHasClose : Bool := false
 deriving Repr, DecidableEq
+
+/-- what iterating the returned object amounts to: `__iter__` raising ends it before any action -/
+def App.acts (app : App) : List IterAct := if app.iterRaises then [.raise] else app.iter
 
 inductive Msg where
   | start (status : Nat) (headers : Headers)     -- `http.response.start`
@@ -324,28 +338,41 @@ deriving Repr, DecidableEq
 structure Run where
   msgs : List Msg
   appCalls : Nat          -- ghost: times `self.app(environ, start_response)` was evaluated
-  closeCalls : Nat        -- ghost: times `response_body.close()` was called
+  closeCalls : Nat        -- ghost: times `close()` of the object the application returned was called
   iterObtained : Bool     -- the callable returned (an iterable exists)
   exc : Option PyErr      -- exception leaving `run_app`
+  iterCloseCalls : Nat := 0   -- ghost: times `close()` of a *separate* iterator (`iter(obj) is not obj`) was called
 deriving Repr, DecidableEq
+
+open Extracted.WsgiSites in
+/-- the `finally` block: (calls of the returned object's `close`, calls of a separate iterator's `close`) -/
+def closeCounts (app : App) : Nat × Nat :=
+  match wsgiBodyBinding with
+  | .returned => (if app.hasClose then 1 else 0, 0)
+  | .iterOf => if app.selfIter then (if app.hasClose then 1 else 0, 0) else (0, if app.iterHasClose then 1 else 0)
+
+open Extracted.WsgiSites in
+/-- `iter()` is applied before the `try` and raises: the exception leaves `run_app` with nothing sent and nothing closed -/
+def iterEscapes (app : App) : Bool := app.iterRaises && wsgiBodyBinding == .iterOf
 
 def runApp (v : Variant) (app : App) : Run :=
   match callPhase none app.call with
   | .error e => { msgs := [], appCalls := 1, closeCalls := 0, iterObtained := false, exc := some e }
   | .ok r =>
     if app.callRaises then { msgs := [], appCalls := 1, closeCalls := 0, iterObtained := false, exc := some .appError }
+    else if iterEscapes app then { msgs := [], appCalls := 1, closeCalls := 0, iterObtained := true, exc := some .appError }
     else
-      let close := if app.hasClose then 1 else 0
+      let close := closeCounts app
       match v with
       | .checkAfterCall =>
         match r with
         | none => { msgs := [], appCalls := 1, closeCalls := 0, iterObtained := true, exc := some .runtimeError }
         | some (st, hs) =>
-          { msgs := .start st hs :: (iterate r true app.iter).1, appCalls := 1, closeCalls := close, iterObtained := true,
-            exc := (iterate r true app.iter).2 }
+          { msgs := .start st hs :: (iterate r true app.acts).1, appCalls := 1, closeCalls := close.1, iterObtained := true,
+            exc := (iterate r true app.acts).2, iterCloseCalls := close.2 }
       | .checkAtFirstChunk =>
-        { msgs := (iterate r false app.iter).1, appCalls := 1, closeCalls := close, iterObtained := true,
-          exc := (iterate r false app.iter).2 }
+        { msgs := (iterate r false app.acts).1, appCalls := 1, closeCalls := close.1, iterObtained := true,
+          exc := (iterate r false app.acts).2, iterCloseCalls := close.2 }
 
 /-! ## `handle_http` and `__call__` -/
 
@@ -354,6 +381,7 @@ structure Outcome where
   appCalls : Nat := 0
   spawns : Nat := 0               -- ghost: `sync_spawn` invocations (the only place `run_app` is started)
   closeCalls : Nat := 0
+  iterCloseCalls : Nat := 0
   iterObtained : Bool := false
   exc : Option PyErr := none      -- exception leaving `WSGIWrapper.__call__`
   waiting : Bool := false         -- still blocked in `receive()`
@@ -378,7 +406,7 @@ def handleHttp (v : Variant) (max : Nat) (sc : Scope) (msgs : List ReqMsg) (app 
     | .ok env =>
       let r := runApp v app
       { sent := if r.exc.isSome then r.msgs else r.msgs ++ [finalBody], appCalls := r.appCalls, spawns := 1,
-        closeCalls := r.closeCalls, iterObtained := r.iterObtained, exc := r.exc, environ := some env }
+        closeCalls := r.closeCalls, iterCloseCalls := r.iterCloseCalls, iterObtained := r.iterObtained, exc := r.exc, environ := some env }
 
 /-- `WSGIWrapper.__call__` by scope type -/
 def wrapper (v : Variant) (kind : String) (max : Nat) (sc : Scope) (msgs : List ReqMsg) (app : App) : Outcome :=
